@@ -66,6 +66,7 @@ class Driver:
         self.p = subprocess.Popen([self.path], stdin=subprocess.PIPE, stdout=subprocess.PIPE, stderr=self.errf, env=env, bufsize=0)
         self.ncases = 0
         self.restarts += 1
+        self.log = [] if getattr(self, 'record', False) else None      # raw requests since this process started (C08: process-history replays)
         for fid, data in self.fonts.items():
             self._raw(b'P' + struct.pack('<I', fid) + struct.pack('<I', len(data)) + data)
 
@@ -126,6 +127,8 @@ class Driver:
         if self.p is None:
             self.start()
         msg = struct.pack('<I', len(payload)) + payload
+        if getattr(self, 'log', None) is not None:
+            self.log.append(payload)
         try:
             self.p.stdin.write(msg)
             self.p.stdin.flush()
